@@ -25,9 +25,10 @@ TOOL = 4
 
 
 # ------------------------------------------------------------------------------------------------ LZW
-def lzw_events(enc, ec=1):
+def lzw_events(enc, ec=1, direct=False):
     """-> (decoded bytes or None, exception name or None, [ {c, w, t, o} ... ])
-    ec = 0: decoded as a stream with /DecodeParms << /EarlyChange 0 >> through PDFStream.decode"""
+    The data is decoded the way a document's stream is: PDFStream({/Filter /LZWDecode [/DecodeParms
+    << /EarlyChange 0 >>]}).get_data(); direct=True calls lzwdecode(enc) instead (ec = 1 only)."""
     cls = _lzw.LZWDecoder
     if not hasattr(cls, "feed") or not hasattr(cls, "run"):
         raise MachineryError("LZWDecoder.feed/run not found")
@@ -49,11 +50,14 @@ def lzw_events(enc, ec=1):
     cls.feed = feed
     try:
         try:
-            if ec == 1:
+            if direct and ec == 1:
                 out = _lzw.lzwdecode(enc)
             else:
                 from pdfminer.psparser import LIT
-                out = _pdftypes.PDFStream({"Filter": LIT("LZWDecode"), "DecodeParms": {"EarlyChange": ec}}, enc).get_data()
+                attrs = {"Filter": LIT("LZWDecode")}
+                if ec != 1:
+                    attrs["DecodeParms"] = {"EarlyChange": ec}
+                out = _pdftypes.PDFStream(attrs, enc).get_data()
             return out, None, ev
         except Exception as e:       # noqa: BLE001 - reported to the caller
             return None, type(e).__name__, ev
